@@ -46,7 +46,7 @@ func genChunkedValue(t *rapid.T, keyLen int) []byte {
 	if n < 0 {
 		n = 0
 	}
-	return mkValue(rapid.Uint32Range(0, 999).Draw(t, "valSeed"), n)
+	return shapeValue(mkValue(rapid.Uint32Range(0, 999).Draw(t, "valSeed"), n), genShape(t, "val"))
 }
 
 func TestC04(t *testing.T) {
